@@ -1,7 +1,7 @@
-\* thorough tier: 5 element handles
+\* thorough tier: 4 element handles, handle ids are recycled (Forget)
 CONSTANTS
-  Ns = {5}
+  Ns = {4}
   Vals = {1, 2}
-  Recycle = FALSE
+  Recycle = TRUE
   Deep = FALSE
 INVARIANTS TypeOK WellFormed RemovedDetached Observable Terminates
